@@ -59,6 +59,21 @@ Theorem C39_write : forall ps,
   all_binary (map ws_write ps) = true /\ stream (map ws_write ps) = concat ps.
 Proof. exact write_side. Qed.
 
+(* Connections are independent: a listener serves every connection from a fresh reader state
+   (ws_init: no current message), so what one connection delivers is a function of its own
+   messages only — whatever earlier or later connections sent, and wherever they stopped. *)
+Theorem C39_connections_independent : forall before c after,
+  serve (before ++ c :: after) = serve before ++ serve1 c :: serve after.
+Proof. exact serve_independent. Qed.
+
+(* ... which is exactly what is lost if a reader state is carried over: a connection that starts
+   with the unread tail of somebody else's message delivers those foreign bytes first. *)
+Theorem C39_stale_reader_leaks : forall tail ms sizes o d e sf, all_binary ms = true ->
+  Forall (fun z => (0 < z)%nat) sizes -> (length (tail ++ concat (map snd ms)) < length sizes)%nat ->
+  read_all sizes (mkWs (Some tail) ms) o = (d, e, sf) ->
+  d = tail ++ concat (map snd ms).
+Proof. exact stale_reader_leaks. Qed.
+
 (* non-vacuity: a PINGREQ split over three messages with empty ones in between, read with
    1-byte buffers and adverse chunking; a message that exactly fills the buffer; a text message *)
 Example C39_nonvacuous :
@@ -80,3 +95,5 @@ Print Assumptions C39_no_empty_read.
 Print Assumptions C39_nonbinary_ends.
 Print Assumptions C39_nonbinary_ends_complete.
 Print Assumptions C39_write.
+Print Assumptions C39_connections_independent.
+Print Assumptions C39_stale_reader_leaks.
